@@ -74,10 +74,13 @@ for _src in ("i32", "f32", "i64", "f64", "u8", "i16"):
 op("to_int", "xsimd::to_int(a)", "B", FLOAT_TYPES, "R:int")
 op("to_float", "xsimd::to_float(a)", "B", ["i32", "i64"], "R:float")
 op("nearbyint_as_int", "xsimd::nearbyint_as_int(a)", "B", FLOAT_TYPES, "R:int")
+op("ldexp", "xsimd::ldexp(a, *(xsimd::batch<xsimd::as_integer_t<T>, A> const*)(void const*)p_b)", "BB", FLOAT_TYPES)
 # C16: complex batches (z, w complex batches of element type T)
 for _n, _e, _r in (("cadd", "z + w", "C"), ("csub", "z - w", "C"), ("cneg", "-z", "C"), ("cconj", "xsimd::conj(z)", "C"), ("creal", "xsimd::real(z)", "B"),
-                   ("cimag", "xsimd::imag(z)", "B"), ("ceq", "z == w", "M"), ("cneq", "z != w", "M")):
-    op(_n, _e, "ZZ" if "w" in _e else "Z", FLOAT_TYPES, _r)
+                   ("cimag", "xsimd::imag(z)", "B"), ("ceq", "z == w", "M"), ("cneq", "z != w", "M"), ("cmul", "z * w", "C"), ("cdiv", "z / w", "C"),
+                   ("cfma", "xsimd::fma(z, w, v)", "C"), ("cfms", "xsimd::fms(z, w, v)", "C"), ("cfnma", "xsimd::fnma(z, w, v)", "C"),
+                   ("cfnms", "xsimd::fnms(z, w, v)", "C")):
+    op(_n, _e, "ZZZ" if "v" in _e else "ZZ" if "w" in _e else "Z", FLOAT_TYPES, _r)
 op("cload_aligned", "xsimd::batch<std::complex<T>, A>::load_aligned(pc)", "k", FLOAT_TYPES, "C")
 op("cload_unaligned", "xsimd::batch<std::complex<T>, A>::load_unaligned(pc)", "k", FLOAT_TYPES, "C")
 op("cstore_aligned", "(z.store_aligned(qc), z)", "Zl", FLOAT_TYPES, "C")
@@ -145,7 +148,7 @@ def entry_text(opn, tid, aid):
     T, A = TYPES[tid][0], ARCHS[aid][0]
     B = "xsimd::batch<%s, %s>" % (T, A)
     M = "xsimd::batch_bool<%s, %s>" % (T, A)
-    names = {"B": iter(["a", "b", "c"]), "M": iter(["m", "m2"]), "I": iter(["n"]), "S": iter(["s"]), "p": iter(["p"]), "q": iter(["q"]), "Z": iter(["z", "w"]), "Q": iter(["q"]), "x": iter(["pb"]), "y": iter(["qb"]), "U": iter(["pu"]), "V": iter(["qu"]), "J": iter(["idx"]), "k": iter(["pc"]), "l": iter(["qc"]), "u": iter(["u"])}
+    names = {"B": iter(["a", "b", "c"]), "M": iter(["m", "m2"]), "I": iter(["n"]), "S": iter(["s"]), "p": iter(["p"]), "q": iter(["q"]), "Z": iter(["z", "w", "v"]), "Q": iter(["q"]), "x": iter(["pb"]), "y": iter(["qb"]), "U": iter(["pu"]), "V": iter(["qu"]), "J": iter(["idx"]), "k": iter(["pc"]), "l": iter(["qc"]), "u": iter(["u"])}
     Cb = "xsimd::batch<std::complex<%s>, %s>" % (T, A)
     params, prologue = [], []
     for k in kinds:
@@ -221,6 +224,16 @@ for _n in ("eq", "neq", "lt", "le", "gt", "ge"):
     SOPS[_n] = ("xsimd::%s(a, b)" % _n, "TT", ALL_TYPES, "bool")
 for _n in ("incr_if", "decr_if"):
     SOPS[_n] = ("xsimd::%s(a, m)" % _n, "Tb", INT_TYPES, "T")
+# floating scalar overloads
+for _n in ("add", "sub", "mul", "div", "min", "max"):
+    SOPS[_n + "_f"] = ("xsimd::%s(a, b)" % _n, "TT", FLOAT_TYPES, "T")
+for _n in ("neg", "abs"):
+    SOPS[_n + "_f"] = ("xsimd::%s(a)" % _n, "T", FLOAT_TYPES, "T")
+for _n in ("fma", "fms", "fnma", "fnms"):
+    SOPS[_n + "_f"] = ("xsimd::%s(a, b, c)" % _n, "TTT", FLOAT_TYPES, "T")
+for _n in ("is_flint", "is_even", "is_odd"):
+    SOPS[_n] = ("xsimd::%s(a)" % _n, "T", FLOAT_TYPES, "bool")
+SOPS["nearbyint_as_int"] = ("xsimd::nearbyint_as_int(a)", "T", FLOAT_TYPES, "NBI")
 SOPS["select"] = ("xsimd::select(m, a, b)", "bTT", ALL_TYPES, "T")
 SOPS["clip"] = ("xsimd::clip(a, b, c)", "TTT", ALL_TYPES, "T")
 
@@ -237,5 +250,5 @@ def scalar_entry_text(opn, tid):
     for k in kinds:
         nm = next(names[k])
         params.append("%s %s" % ({"T": T, "I": "int", "b": "bool"}[k], nm))
-    R = T if ret == "T" else ret
+    R = T if ret == "T" else ({"f32": "int32_t", "f64": "int64_t"}[tid] if ret == "NBI" else ret)
     return 'extern "C" void %s(%s* r, %s) { *r = %s; }\n' % (scalar_entry_name(opn, tid), R, ", ".join(params), expr)
